@@ -262,7 +262,8 @@ func swRun(cs swCase) M {
 	for i, c := range cs.Callers {
 		s := &sessions.SessionState{AccessToken: c.Access, RefreshToken: c.Refresh, Email: c.Email,
 			ValidDeadline: t0.Add(-time.Minute).Truncate(time.Second), RefreshDeadline: t0.Add(-time.Minute).Truncate(time.Second),
-			LifetimeDeadline: t0.Add(10 * time.Hour).Truncate(time.Second)}
+			// every caller's session has its own hard lifetime (sessions of one user on several hosts share tokens, not lifetimes)
+			LifetimeDeadline: t0.Add(time.Duration(10+i) * time.Hour).Truncate(time.Second)}
 		before := group.VerifSnapshot()
 		entered := gate.count()
 		ch := make(chan res, 1)
